@@ -129,7 +129,7 @@ def h_train(ctx, cfg):
         sps = ctx.mod("batchie.models.sparse_combo")
         ys = list(wm.y)
         for k, i in enumerate(used):
-            ref = sps.logit(np.clip(obs_sym[i], a_min=0.01, a_max=0.99))
+            ref = sps.logit(np.clip(np.array([obs_sym[i]], dtype=float).astype(np.float32), a_min=0.01, a_max=0.99)).tolist()[0]
             ctx.prove(ctx.eq(ys[k], ref), "training target = logit(clip(observation, 0.01, 0.99))", key="combo: target transformation")
     return used
 
